@@ -58,6 +58,8 @@ class Apply(Stream):
                 # a window [start, end) in tatums, possibly several grid lengths long (the grid repeats cyclically)
                 a = rng.randrange(0, 2 * len(arr))
                 case["window"] = [a, a + rng.randrange(1, 3 * len(arr) + 1)]
+            if rng.random() < 0.3:
+                case["reused"] = True
             yield case
 
     def impl(self, case):
@@ -65,10 +67,17 @@ class Apply(Stream):
         def f():
             met = Metric(list(case["array"]), tuple(case["sig"]), tatum=F(case["tatum"]), nb_bars=case["bars"])
             notes = [Silence(1) if n["kind"] == "r" else Note(n["kind"], n["val"], n["oct"], 1) for n in case["mel"]]
+            mel = Melody(notes)
+            if case.get("reused"):
+                # the caller's melody object has already been through the other public form of the call (and its result thrown away)
+                try:
+                    met.apply_to_melody(mel, expand=False)
+                except Exception:
+                    pass
             if case.get("window"):
-                res = met.apply_to_melody(Melody(notes), start=case["window"][0] * F(case["tatum"]), end=case["window"][1] * F(case["tatum"]))
+                res = met.apply_to_melody(mel, start=case["window"][0] * F(case["tatum"]), end=case["window"][1] * F(case["tatum"]))
             else:
-                res = met.apply_to_melody(Melody(notes))
+                res = met.apply_to_melody(mel)
             out = []
             for x in res.notes:
                 k = F(x.duration) / F(case["tatum"])
@@ -210,6 +219,9 @@ class Euclid(Stream):
                     for sig in SIGS:
                         for tat in TATUMS + [F(1, 16), F(1, 12), F(1, 24)]:
                             if F(sig[0]) * F(4, sig[1]) / tat == s_ // bars:
+                                earlier = Metric.Euclidian(p_, sig, tat, nb_bars=bars)
+                                for j in range(len(earlier.array)):
+                                    earlier.array[j] = 1 - earlier.array[j]          # its owner edits the array it was given, in place
                                 m = Metric.Euclidian(p_, sig, tat, nb_bars=bars)
                                 if [int(x) for x in m.array] != direct:
                                     return {"direct": direct, "metric": [int(x) for x in m.array], "bars": bars, "sig": list(sig), "tatum": str(tat)}
